@@ -1092,19 +1092,29 @@ func (r *Report) Finish(env *Env) int {
 			}
 		}
 	}
+	// Diagnostics about the machinery itself. Without a confirmed
+	// counterexample they mean that nothing can be claimed (exit 3). With one,
+	// the verdict stands - every reported violation was reproduced on the
+	// natively built code with the same oracle - and the diagnostics are printed
+	// for information: code that breaks the property often also breaks an
+	// expectation of a twin or sends the encoder down a path it cannot follow.
+	broken := false
 	if len(r.EngineMism) > 0 {
-		fmt.Fprintf(os.Stderr, "CHECK-ERROR: %d engine/native mismatches (engine defect, nothing is claimed)\n%s\n", len(r.EngineMism), r.EngineMism[0])
-		return 3
+		fmt.Fprintf(os.Stderr, "CHECK-ERROR: %d engine/native mismatches (engine defect, nothing is claimed for those paths)\n%s\n", len(r.EngineMism), r.EngineMism[0])
+		broken = true
 	}
 	if len(r.WitnessFail) > 0 {
 		fmt.Fprintf(os.Stderr, "CHECK-ERROR: reachability witnesses not violated (vacuous harness): %v\n", r.WitnessFail)
-		return 3
+		broken = true
 	}
 	if len(r.Unconfirmed) > 0 {
 		// a counterexample that does not reproduce natively means the
 		// encoding or an oracle is wrong: the check is broken, not the code
 		b, _ := json.MarshalIndent(r.Unconfirmed[0], "", " ")
 		fmt.Fprintf(os.Stderr, "CHECK-ERROR: %d symbolic counterexamples did not reproduce on the native build (encoding/oracle defect); first:\n%s\n", len(r.Unconfirmed), b)
+		broken = true
+	}
+	if broken && exit == 0 {
 		return 3
 	}
 	cov := env.P.Coverage(r.Functions...)
